@@ -192,6 +192,17 @@ Proof.
   destruct n; cbn [norm]; [eauto|]. destruct (flat_fields U c); eauto.
 Qed.
 
+Lemma absent_args_id U t v : v <> VNone -> absent_args U t v = inr v.
+Proof. destruct v; [congruence| | |]; reflexivity. Qed.
+
+Lemma norm_not_none U n t v : nonelike v = false -> norm U n t v <> VNone.
+Proof.
+  intro H. destruct n as [|k]; cbn [norm].
+  - destruct v; try discriminate.
+  - destruct t as [l|c|e mns mname]; destruct v as [|[| | |[|? ?]| | | | |]|d fs|xs]; cbn [norm_leaf] in *; try discriminate.
+    destruct (flat_fields U c); discriminate.
+Qed.
+
 Lemma firstn_all_pad {A} (l : list A) (x : A) n : length l = n -> firstn n (l ++ repeat x n) = l.
 Proof. intros <-. rewrite firstn_app, Nat.sub_diag, firstn_all. cbn. apply app_nil_r. Qed.
 
@@ -261,7 +272,11 @@ Section Fidelity.
     (match eff_style m with
      | EBare => Some [norm U fuel (fst (req_ty U0 i m)) (req_value U0 i m args)]
      | EEmpty => Some []
-     | _ => match norm U fuel (fst (req_ty U0 i m)) (req_value U0 i m args) with VObj _ fs => Some fs | _ => None end
+     | _ => match norm U fuel (fst (req_ty U0 i m)) (req_value U0 i m args) with
+            | VObj _ fs => Some fs
+            | VList l => Some l
+            | _ => None
+            end
      end) = Some (seen_args U0 Sv fuel i m args).
   Proof.
     unfold seen_args, req_value, req_ty, eff_style.
@@ -276,12 +291,12 @@ Section Fidelity.
   Theorem call_fidelity_lemma : forall i m (f : ufun) hv args ret oh,
     nth_error (s_methods Sv) i = Some m ->
     hdr_distinct U (m_in_header m) = true -> hdr_distinct U (m_out_header m) = true ->
-    args_conf L V U0 Sv fuel i m args = true ->
+    args_conf L U0 Sv fuel i m args = true ->
     hdrs_conf L U0 Sv fuel (m_in_header m) hv = true ->
     (V = ValLxml -> forall e, enc L U fuel (fst (req_ty U0 i m)) (s_tns Sv) (m_name m) (req_value U0 i m args) = Ok e ->
                     schema_valid (wire e) = true) ->
     f (m_name m) (seen_header P U0 Sv fuel (m_in_header m) hv) (seen_args U0 Sv fuel i m args) = (ret, oh) ->
-    ret_conf L V U0 Sv fuel i m ret = true ->
+    ret_conf L U0 Sv fuel i m ret = true ->
     hdrs_conf L U0 Sv fuel (m_out_header m) oh = true ->
     exists req resp,
       client_request L P U0 Sv fuel i m hv args = Ok req
@@ -296,7 +311,8 @@ Section Fidelity.
     apply andb_true_iff in Hargs. destruct Hargs as [Hx Hlen1].
     destruct (xmlx_rt_gen L C U Hleaf Hwf fuel (fst (req_ty U0 i m)) (req_value U0 i m args) (s_tns Sv) (m_name m)
                           (snd (req_ty U0 i m)) Hx) as [a [tx [ks [He Hd]]]].
-    { intro Hne. rewrite Hne in Hnl. cbn [negb orb] in Hnl. apply negb_true_iff in Hnl. exact Hnl. }
+    { intro Hne. rewrite Hne in Hnl. discriminate. }
+    apply negb_true_iff in Hnl.
     destruct (headers_rt (m_in_header m) hv Hhin Hdi) as [hsin [Hhe Hhd]].
     set (body := XElt (s_tns Sv) (m_name m) a tx ks) in *.
     exists (envelope P hsin body).
@@ -308,7 +324,8 @@ Section Fidelity.
     apply andb_true_iff in Hret. destruct Hret as [Hxr Hnlr].
     destruct (xmlx_rt_gen L C U Hleaf Hwf fuel (fst (resp_ty U0 i m)) vout (s_tns Sv) (m_name m ++ t_Response)
                           (snd (resp_ty U0 i m)) Hxr) as [a2 [tx2 [ks2 [He2 Hd2]]]].
-    { intro Hne. rewrite Hne in Hnlr. cbn [negb orb] in Hnlr. apply negb_true_iff in Hnlr. exact Hnlr. }
+    { intro Hne. rewrite Hne in Hnlr. discriminate. }
+    apply negb_true_iff in Hnlr.
     destruct (headers_rt (m_out_header m) oh Hhout Hdo) as [hsout [Hhe2 Hhd2]].
     set (rbody := XElt (s_tns Sv) (m_name m ++ t_Response) a2 tx2 ks2) in *.
     exists (envelope P hsout rbody).
@@ -339,12 +356,14 @@ Section Fidelity.
       rewrite (find_method_nth (s_tns Sv) (s_methods Sv) 0 i m Hnames Hnth). cbn [Nat.add].
       rewrite Hhd.
       unfold C, U, cfgV in Hd. rewrite Hd.
+      rewrite (absent_args_id _ _ _ (norm_not_none (synth U0 Sv) fuel _ _ Hnl)).
       rewrite <- seen_header_raw.
       fold U. rewrite (args_of i m args).
       rewrite Hf. rewrite Hser. reflexivity.
     - (* ---- the client *)
       unfold client_response. fold (open_doc P (wire (envelope P hsout rbody))). rewrite open_envelope.
       rewrite Hhd2. cbn [bind]. unfold C, U, cfgV in Hd2. rewrite Hd2. cbn [bind].
+      rewrite (absent_args_id _ _ _ (norm_not_none (synth U0 Sv) fuel _ _ Hnlr)). cbn [bind].
       rewrite <- seen_header_raw.
       unfold seen_ret. unfold ret_value in Erv.
       destruct (m_style m) eqn:Es.
